@@ -22,7 +22,7 @@ T = {
          "Theorems (Props/C02.v): a representing tree serializes to spec_ser and reports its length; decoding spec bytes yields a representing tree; getters return the represented components. Correspondence: Serialize, ValueByteLength, Deserialize->Serialize/root/getter read-back vs model vs spec.",
          "machine-checked proof (Coq) + differential correspondence"),
  "C03": ("view decoding is canonical, total, panic-free",
-         "Theorems (Props/C03.v): view_deserialize never panics; an accepted input is spec_ser of a typed value and the tree represents it; every spec encoding is accepted. Correspondence: accept/reject/panic and re-serialization on exhaustive small strings (12 small types) and structure-aware corruptions; model also checked against the spec on every accepted input.",
+         "Theorems (Props/C03.v): view_deserialize never panics; an accepted input is spec_ser of a typed value and the tree represents it; every spec encoding is accepted. Correspondence: accept/reject/panic and re-serialization on exhaustive small strings (12 small types) and structure-aware corruptions; model also checked against the spec on every accepted input; inputs of 2^32 bytes and more are fed lazily and checked against the theorems' statement (accept => whole input consumed and reproduced) since the model cannot be run on them.",
          "machine-checked proof (Coq) + differential correspondence incl. exhaustive small inputs"),
  "C04": ("typed mutations behave like a plain value model",
          "Theorems (Props/C04.v): the tree machine TM simulates the plain-value machine VM step by step (relation: every handle's backing represents its value), lifted to all finite histories; errors leave the state unchanged. Correspondence: exhaustive short histories on 8 small types and random long histories with retained/nested sub-views: Go vs HM vs TM vs VM after every step.",
@@ -43,10 +43,10 @@ T = {
          "Theorems (Props/C09.v): flat_enc = spec_ser, flat_len = its length, decoding the encoding into ANY prior destination state returns the value. Correspondence: encode / ByteLength / decode into fresh and reused (shorter, longer) destinations.",
          "machine-checked proof (Coq) + differential correspondence"),
  "C10": ("flat codec decoding is canonical and panic-free",
-         "Theorems (Props/C10.v): flat_decode never panics; accepted inputs of variable-size types are spec_ser of the decoded typed value; the flat decoder and the view decoder accept the same byte strings and yield the same value (C10_accepts_what_the_view_decoder_accepts, C10_same_value_as_the_view_decoder). Correspondence: exhaustive small strings and corruptions, re-encoding; a sample of each run is also evaluated inside Coq (extraction cross-check).",
+         "Theorems (Props/C10.v): flat_decode never panics; accepted inputs of variable-size types are spec_ser of the decoded typed value; the flat decoder and the view decoder accept the same byte strings and yield the same value (C10_accepts_what_the_view_decoder_accepts, C10_same_value_as_the_view_decoder). Correspondence: exhaustive small strings and corruptions, re-encoding, single values of more than a megabyte, inputs of 2^32 bytes and more (fed lazily, checked against the theorems' statement); a sample of each run is also evaluated inside Coq (extraction cross-check).",
          "machine-checked proof (Coq) + differential correspondence incl. exhaustive small inputs"),
  "C11": ("tree navigation laws",
-         "Theorems (Props/C11.v, 40 statements): get-after-set, off-path subtrees unchanged (same ADDRESS on the heap), original unchanged, navigation errors never panics, expansion equivalent to the materialised zero subtree, non-zero summaries refuse expansion, summarising preserves the root, heap path-copy refines the pure setter. Correspondence: all shapes to depth 2 (3 thorough, every 7th) x all indices x ops with pointer identity by canonical numbering; random trees to depth 12, 63-bit indices.",
+         "Theorems (Props/C11.v, 44 statements): get-after-set, off-path subtrees unchanged (same ADDRESS on the heap), original unchanged, navigation errors never panics, expansion equivalent to the materialised zero subtree, non-zero summaries refuse expansion, summarising preserves the root, heap path-copy refines the pure setter. Correspondence: all shapes to depth 2 (3 thorough, every 7th) x all indices x ops with pointer identity by canonical numbering; random trees to depth 12, 63-bit indices; caller-defined generalized indices of depth 3..130 on spine trees (the theorems are about paths of any length; summarize_path agrees with summarize on every 64-bit index).",
          "machine-checked proof (Coq) + differential correspondence with node identity"),
  "C12": ("partial backings are handled safely",
          "Theorems (Props/C12.v): summarising preserves the root; on a summarised tree every read/mutation of the model is an error or agrees with the full tree. Correspondence: 1..3 summarised positions (exhaustive for small backings) x reads, iterators and single mutations; Go vs model, and the error-or-same relation checked on both.",
@@ -70,7 +70,7 @@ T = {
          "Theorems (Props/C18.v, 27 statements): BitlistCheck/BitvectorCheck accept exactly the spec-valid packings; length, get/set, ones-count, zero-test, covers expressed on the unpacked sequence; behaviour on invalid input stated. Correspondence: all strings <= 1 byte (2 thorough) x limits 0..40, 3-byte alphabet strings, random strings.",
          "machine-checked proof (Coq) + differential correspondence"),
  "C19": ("text/JSON conversions are lossless and range-checked",
-         "Theorems (Props/C19.v, 30 statements): print/parse round trips for every width incl. uint256, no truncation (the narrowing casts are identities), decimal exactness, denotation of every accepted syntax, fixed-size hex accepts exactly 2k hex digits. strconv.ParseUint / math/big scanning are transcribed (trusted base). Correspondence: all uint8, uint16 (sampled in quick), boundary/random wider, ~2500 numeric texts x 6 entry points, hex texts of every length 0..80.",
+         "Theorems (Props/C19.v, 30 statements): print/parse round trips for every width incl. uint256, no truncation (the narrowing casts are identities), decimal exactness, denotation of every accepted syntax, fixed-size hex accepts exactly 2k hex digits. strconv.ParseUint / math/big scanning are transcribed (trusted base). Correspondence: all uint8, uint16 (sampled in quick), boundary/random wider, ~2500 numeric texts x 6 entry points, hex texts of every length 0..80; the conversions again from 8 goroutines under the race detector.",
          "machine-checked proof (Coq) + differential correspondence"),
  "C20": ("decoding memory is bounded by input size",
          "Theorems (Props/C20.v, 24 statements): view decoders — the instrumented decoder computes the same result as the decoder; its allocation charge is bounded by 2*perbyte(t)*|input| + foot(t) (C20_bound_top) and by perbyte(t) per byte actually consumed on success, where neither perbyte nor foot depends on a list limit (C20_bound_limit_free); a list length is accepted only if it fits the scope. Flat decoders (codec.DecodingReader helpers, tree.ReadRoots and destinations assembled as downstream users do) — the instrumented flat decoder is faithful (C20_flat_instrumentation_faithful) and charged at most 2*fperbyte(t)*|input| + fnew(t) + 96 + ffoot(t) (C20_flat_bound_top; for types whose bitvector lengths do not wrap uint64, or for any type on inputs below 2^61 bytes; the unrestricted success form is refuted by C20_flat_success_bound_needs_hypothesis), limit-free (C20_flat_bound_limit_free). Partial: the Go allocator is not modelled; measured TotalAlloc per call must stay within 4x the model's charge + 16 KiB, separately for the view and the flat decoder. Correspondence: hostile offset words against limits up to 2^40, corruptions; view and flat decoders.",
